@@ -6,13 +6,13 @@
 Require Import VV.Base VV.EliasBits.
 Local Open Scope N_scope.
 
-(* floorLog2: while (value > 1) { value >>= 1; log++; }   (fuel 64 >= the 63
+(* floorLog2: while (value > 1) { value >>= 1; log++; }   (N.div2 v = v / 2; fuel 64 >= the 63
    iterations a uint64_t can take; with NDEBUG the assert(value > 0) is gone
    and floorLog2(0) = 0) *)
 Fixpoint floor_log2_loop (fuel : nat) (value log : N) : N :=
   match fuel with
   | O => log
-  | S f => if 1 <? value then floor_log2_loop f (shr value 1) (log + 1) else log
+  | S f => if 1 <? value then floor_log2_loop f (N.div2 value) (log + 1) else log
   end.
 Definition floor_log2 (value : N) : N := floor_log2_loop 64 value 0.
 
